@@ -182,6 +182,8 @@ JudgeHash(ev) ==
       coreV == {V(IF AnyFault(ev) /\ n \in {"FailClosed", "NoStale", "Token", "Wiped"} THEN "C15" ELSE PropOf(n), n) : n \in core}
       conc == (IF C_Confined(ev) THEN {} ELSE {V("C04", "Confined")})
               \cup (IF "Result" \in core /\ (pre.scr = Junk \/ pre.out = Junk) THEN {V("C04", "UninitDependence")} ELSE {})
+              \* C08: a call made while other threads were calling returned what it returns when run alone
+              \cup (IF "Result" \in core /\ ev.mt = 1 THEN {V("C08", "AsIfAlone")} ELSE {})
               \cup (IF C_NoLeak(ev) THEN {} ELSE {V("C09", "NoLeak")})
               \cup (IF C_Shape(ev, oc) THEN {} ELSE {V("C06", "Shape")})
               \cup (IF C_CanonPrefix(ev, oc) THEN {} ELSE {V("C06", "CanonPrefix")})
@@ -267,7 +269,8 @@ Step ==
         /\ st' = [x \in {} |-> FreshObj]
         /\ UNCHANGED <<viol, div, cnt>>
      ELSE IF ev.e = "Fault" THEN
-        /\ viol' = viol \cup {V("C04", "Fault")}
+        \* (a fault while the library's static storage was write-protected is a write by a re-entrant function)
+        /\ viol' = viol \cup {V(IF "wprot" \in DOMAIN ev /\ ev.wprot = 1 THEN "C08" ELSE "C04", "Fault")}
         /\ UNCHANGED <<st, div, cnt>>
      ELSE UNCHANGED <<st, viol, div, cnt>>
 
